@@ -77,11 +77,47 @@ struct ChunkedEncoder;
 impl Encode for ChunkedEncoder {
     fn encode(&self, w: &mut dyn EncWrite, record: &log::Record) -> anyhow::Result<()> {
         let s = record.args().to_string();
-        // two write calls, cut at a byte position (it may fall inside a character)
+        // two pieces, cut at a byte position (it may fall inside a character), handed over through every entry
+        // point of io::Write in turn: what the writer accepted is what counts, whichever way it came in
         let b = s.as_bytes();
         let cut = b.len() / 3;
-        w.write_all(&b[..cut])?;
-        w.write_all(&b[cut..])?;
+        // (the second byte of a payload is the last digit of the record id)
+        match b.get(1).map(|d| (*d as usize) % 4).unwrap_or(0) {
+            0 => {
+                w.write_all(&b[..cut])?;
+                w.write_all(&b[cut..])?;
+            }
+            1 => {
+                // vectored, repeating until both pieces are taken
+                let (mut a, mut c) = (&b[..cut], &b[cut..]);
+                while !a.is_empty() || !c.is_empty() {
+                    let n = w.write_vectored(&[io::IoSlice::new(a), io::IoSlice::new(c)])?;
+                    if n == 0 {
+                        anyhow::bail!("write_vectored accepted nothing");
+                    }
+                    let na = n.min(a.len());
+                    a = &a[na..];
+                    c = &c[n - na..];
+                }
+            }
+            2 => {
+                // plain write calls, looping over short counts
+                let mut rest = b;
+                while !rest.is_empty() {
+                    let n = w.write(rest)?;
+                    rest = &rest[n..];
+                }
+            }
+            _ => {
+                // through the formatting machinery (write_fmt), piece by piece on character boundaries
+                let mut cut = cut;
+                while !s.is_char_boundary(cut) {
+                    cut += 1;
+                }
+                write!(w, "{}", &s[..cut])?;
+                write!(w, "{}", &s[cut..])?;
+            }
+        }
         Ok(())
     }
 }
